@@ -30,17 +30,17 @@ type Step struct {
 
 // History is a complete scenario.
 type History struct {
-	N          int    `json:"n"`                 // number of clients
-	Interval   int64  `json:"interval"`          // project snapshot interval (0 = default)
-	Threshold  int64  `json:"threshold"`         // project snapshot threshold (0 = default)
-	Setup      string `json:"setup"`             // which containers client 0 creates first: any of "oatcn"
-	Steps      []Step `json:"steps"`
-	Seed       uint64 `json:"seed,omitempty"`
-	Flavor     string `json:"flavor,omitempty"`
-	AllOptOut  bool   `json:"alloptout,omitempty"` // twin run: every client attaches WithDisableGC
-	Quiesce    int    `json:"quiesce"`           // number of final sync rounds
-	Late       []int  `json:"late,omitempty"`    // clients that are NOT attached during setup (they attach by an A step)
-	Pin        bool   `json:"pin,omitempty"`     // twin run: an extra attached client that never syncs again keeps the minimum version vector at its start, so nothing is ever purged
+	N         int    `json:"n"`         // number of clients
+	Interval  int64  `json:"interval"`  // project snapshot interval (0 = default)
+	Threshold int64  `json:"threshold"` // project snapshot threshold (0 = default)
+	Setup     string `json:"setup"`     // which containers client 0 creates first: any of "oatcn"
+	Steps     []Step `json:"steps"`
+	Seed      uint64 `json:"seed,omitempty"`
+	Flavor    string `json:"flavor,omitempty"`
+	AllOptOut bool   `json:"alloptout,omitempty"` // twin run: every client attaches WithDisableGC
+	Quiesce   int    `json:"quiesce"`             // number of final sync rounds
+	Late      []int  `json:"late,omitempty"`      // clients that are NOT attached during setup (they attach by an A step)
+	Pin       bool   `json:"pin,omitempty"`       // twin run: an extra attached client that never syncs again keeps the minimum version vector at its start, so nothing is ever purged
 }
 
 // StepObs is what was observed after a step.
@@ -65,16 +65,16 @@ type LogRow struct {
 
 // Outcome of running a history.
 type Outcome struct {
-	Steps    []StepObs                    `json:"steps"`
-	Final    []string                     `json:"final"`     // Marshal() per client after quiescence ("" = not attached)
-	FinalC   []string                     `json:"final_clone"`
-	Garbage  []int                        `json:"garbage"`
-	Attached []bool                       `json:"attached"`
-	Actors   []string                     `json:"actors"`
+	Steps    []StepObs                      `json:"steps"`
+	Final    []string                       `json:"final"` // Marshal() per client after quiescence ("" = not attached)
+	FinalC   []string                       `json:"final_clone"`
+	Garbage  []int                          `json:"garbage"`
+	Attached []bool                         `json:"attached"`
+	Actors   []string                       `json:"actors"`
 	Pres     []map[string]map[string]string `json:"presences"`
-	Log      []LogRow                     `json:"log,omitempty"`
-	Problems []Problem                    `json:"problems"`
-	Fatal    string                       `json:"fatal,omitempty"` // harness-level failure (not a verdict)
+	Log      []LogRow                       `json:"log,omitempty"`
+	Problems []Problem                      `json:"problems"`
+	Fatal    string                         `json:"fatal,omitempty"` // harness-level failure (not a verdict)
 }
 
 // Problem is a failure of one of the property oracles on the implementation.
